@@ -42,6 +42,8 @@ pub const KINDS: &[&str] = &[
     "px_single",       // 35 (systematic single-pixel sweep)
     "cw_single",       // 36 (systematic single-codeword sweep)
     "cw_pair",         // 37 (systematic weight-2 sweep)
+    "cw_ghost",        // 38 (syndromes of an error at a position outside the shortened block)
+    "snd_fabricate",   // 39 (token-built data codeword stream)
 ];
 
 pub fn kind_id(name: &str) -> u8 {
